@@ -155,6 +155,9 @@ func VH_mdiff_ChunksWide() {
 func VH_mdiff_Chunks() {
 	l, r := vMkLines(vCase("nl"), "l"), vMkLines(vCase("nr"), "r")
 	n := vCase("ctx")
+	if n == -2 {
+		n = vRange("n", 0, 1<<63-1) // any context size at all
+	}
 	d := New(l, r)
 	snap := vSnapEdits(d.Edits)
 	out, used, ok := vApplyEdits(d.Edits, l, 0)
